@@ -64,6 +64,9 @@ fn generate_enum(ctx: &Context, def: &UnionDefinition) -> TokenStream {
     if def.union_().iter().any(|v| ctx.has_double(v.type_())) {
         derives.push("conjure_object::private::Educe");
         type_attrs.push(quote!(#[educe(PartialEq, Eq, PartialOrd, Ord, Hash)]));
+        // educe's derived Ord compares discriminants by reading the first bytes of the value, which
+        // is only the discriminant for an enum with an explicit integer repr.
+        type_attrs.push(quote!(#[repr(u16)]));
     } else {
         derives.push("PartialEq");
         derives.push("Eq");
